@@ -103,7 +103,7 @@ def run(rep, tier, seed, replay_file=None):
         if bc.run_impl(rep, bc.progress_models(quick), workers=4 if quick else 5, parallel=3):
             bc.run_asis(rep, ["stats", "wait", "recv"])
     with bc.phase(rep, "schedule-generation"):
-        scheds, _ = bc.gen_schedules(rep, quick, seed, 1500 if quick else 9000)
+        scheds, _ = bc.gen_schedules(rep, quick, seed, 1200 if quick else 9000, ("buffered", "window"))
     with bc.phase(rep, "schedule-execution"):
         hists = bc.run_schedules(rep, binary, scheds, 12, seed, "broker/sched") if scheds else []
     with bc.phase(rep, "recorder"):
